@@ -81,4 +81,8 @@ CHECKS["C08"] = dict(level="model_checking", technique=_FT + " of format() outpu
 CHECKS["C07"] = dict(level="model_checking", technique=_FT + "; round-trip events format -> parse in a different zone for formats of the lossless family (membership re-checked by the TLA+ predicate Lossless)",
    text="Formats of the lossless family (year, date via month/day or week+weekday or locale names, H, M, full-precision seconds, full-resolution offset, or %s) in random order/separators x zones (incl. sub-minute and +-24h fixed offsets) x instants (years 0, 1, 9999/10000, int64 limits) x femtosecond classes: parse(fmt, format(fmt, t, tz), other_zone) must return exactly t (and the femtoseconds).",
    note=_TB + "two known findings are listed in known_findings.txt (offset of exactly +-24h; %e with single-digit days).")
+CHECKS["C09"] = dict(level="model_checking",
+   technique="TLA+ spec Parse (field grammar with widths/ranges, whitespace rules, offsets, fractions, %s short-circuit, leap second, week numbers, no-normalisation and int64 range rules; strptime as a recorded uninterpreted function for the delegated specifiers exported by GenParse) + TLC trace validation (ParseTrace) of detail::parse under ASan+UBSan-trap",
+   text="~6k (quick) / ~150k (thorough) distinct (format, input) pairs - rendered from chosen field values, one field just outside its range, non-existent dates, single-character edits, int64 limits with offsets pushing across, ~130 directed corner cases, random bytes - in fixed-offset and real zones: TLC replays every call with Parse!ParseResult and compares verdict, instant and femtoseconds; every call must be free of sanitizer findings.",
+   note=_TB + "strptime is environment (C locale), recorded at every input position; outcomes depending on strptime's internal bookkeeping and pairs containing NUL are left open; UB clause = observation on executed inputs.")
 NOT_APPLICABLE = {}
